@@ -154,7 +154,8 @@ def tlc(module, cfg, *, workers=8, simulate=None, depth=None, seed=None, env=Non
     meta = os.path.join(WORK, "tlc", f"{name}-{os.getpid()}")
     shutil.rmtree(meta, ignore_errors=True)
     os.makedirs(meta, exist_ok=True)
-    jopts = [f"-Xmx{xmx}"]
+    # TLC / SANY leave tlc-* and SANY* directories in java.io.tmpdir: keep them inside the run's own directory
+    jopts = [f"-Xmx{xmx}", f"-Djava.io.tmpdir={meta}"]
     if xss:
         jopts.append("-Xss1g")
     if deque:
@@ -254,19 +255,24 @@ def tlc_expect_violation(module, cfg, expected=None, **kw):
     return r
 
 
-def parse_prints(res, tag):
-    """PrintT(<<tag, json-string>>) lines -> list of decoded JSON values."""
-    out = []
+def parse_prints(res, tag, limit=None):
+    """PrintT(<<tag, json-string>>) lines -> list of decoded JSON values.
+    With `limit`, an evenly spaced sample of that many lines is decoded (millions of generated
+    behaviours are never all held as Python objects)."""
     pre = f'<<"{tag}", "'
-    for line in res.prints:
-        if line.startswith(pre) and line.endswith('">>'):
-            s = line[len(pre):-3]
-            # TLC prints the TLA+ string with escaped quotes/backslashes
-            s = s.replace('\\"', '"').replace("\\\\", "\\")
-            try:
-                out.append(json.loads(s))
-            except Exception as ex:  # pragma: no cover
-                raise ToolError(f"cannot decode generated behaviour: {ex}: {s[:200]}")
+    idx = [i for i, line in enumerate(res.prints) if line.startswith(pre) and line.endswith('">>')]
+    if limit and len(idx) > limit:
+        step = len(idx) / limit
+        idx = [idx[int(i * step)] for i in range(limit)]
+    out = []
+    for i in idx:
+        s = res.prints[i][len(pre):-3]
+        # TLC prints the TLA+ string with escaped quotes/backslashes
+        s = s.replace('\\"', '"').replace("\\\\", "\\")
+        try:
+            out.append(json.loads(s))
+        except Exception as ex:  # pragma: no cover
+            raise ToolError(f"cannot decode generated behaviour: {ex}: {s[:200]}")
     return out
 
 
